@@ -162,6 +162,8 @@ class InPredicate:
                 if not result:
                     return None
         elif positive:
+            if type(self.pattern_vals) not in (tuple, list, set, frozenset, dict, range):
+                return value  # the container's own __contains__ need not be element-wise equality
             acceptable_values = [
                 KnownValue(pattern_val)
                 for pattern_val in self.pattern_vals
